@@ -7,6 +7,7 @@ import (
 	"go/constant"
 	"go/token"
 	"go/types"
+	"strings"
 
 	"golang.org/x/tools/go/ssa"
 )
@@ -190,7 +191,35 @@ func (r *Run) term(fr *Frame, v ssa.Value) *Term {
 
 // goPanic raises a Go run-time panic in the current thread.
 func (r *Run) goPanic(msg string) {
+	// run-time errors are values of runtime.errorString / runtime.plainError (both implement
+	// runtime.Error, their methods run from source); panics raised by library code are strings
+	if rest := strings.TrimPrefix(msg, "runtime error: "); rest != msg {
+		if t := r.runtimeType("errorString"); t != nil {
+			panic(goPanicSignal{Iface{typ: t, val: StrVal{rest}}, msg})
+		}
+	}
+	switch msg {
+	case "send on closed channel", "close of closed channel", "close of nil channel", "assignment to entry in nil map":
+		if t := r.runtimeType("plainError"); t != nil {
+			panic(goPanicSignal{Iface{typ: t, val: StrVal{msg}}, msg})
+		}
+	}
 	panic(goPanicSignal{Iface{typ: types.Typ[types.String], val: StrVal{msg}}, msg})
+}
+
+func (r *Run) runtimeType(name string) types.Type {
+	pkg := r.eng.prog.ImportedPackage("runtime")
+	if pkg == nil {
+		return nil
+	}
+	obj := pkg.Pkg.Scope().Lookup(name)
+	if obj == nil {
+		return nil
+	}
+	if _, ok := obj.Type().Underlying().(*types.Basic); !ok {
+		return nil
+	}
+	return obj.Type()
 }
 
 type goPanicSignal struct {
@@ -386,7 +415,7 @@ func (r *Run) stepNoRecover(t *Thread) (cont bool) {
 		if s, ok := iv.val.(StrVal); ok {
 			msg = s.s
 		}
-		t.panic = &panicState{val: iv, msg: msg}
+		r.raisePanic(t, &panicState{val: iv, msg: msg})
 	case *ssa.Defer:
 		fv, args := r.resolveCall(fr, in.Common())
 		fr.defers = append(fr.defers, deferred{fv: fv, args: args, pos: in.Pos()})
@@ -495,6 +524,19 @@ func (r *Run) runOneDefer(t *Thread, fr *Frame) bool {
 		}
 	}
 	return true
+}
+
+// raisePanic starts a panic in thread t. If it is raised inside a deferred call that is running
+// while an earlier panic unwinds (an insulated frame, or anything it called), the new panic
+// replaces the earlier one: the deferred call itself must now unwind too.
+func (r *Run) raisePanic(t *Thread, ps *panicState) {
+	t.panic = ps
+	for i := len(t.frames) - 1; i >= 0; i-- {
+		if t.frames[i].insul {
+			t.frames[i].insul = false
+			break
+		}
+	}
 }
 
 // unwind performs one step of panic propagation in frame fr.
